@@ -183,7 +183,7 @@ def check_basis(case):
                 r, m = o_rightmost(img), o_maximum(img)
                 if ("regular rightmost insertion encoding" in out) != r or ("regular topmost insertion encoding" in out) != m or ("does not have a regular insertion encoding" in out) != (not r and not m):
                     return BAD("cli_insenc", {"arg": arg, "out": out, "rightmost": r, "topmost": m})
-    if enum and all(len(p) >= 1 for p in perms):
+    if enum and all(1 <= len(p) <= 5 for p in perms):
         bad = _enumeration_consistency(perms, case.get("nmax", 8))
         if bad:
             return bad
@@ -257,7 +257,30 @@ def members():
 
 @st.composite
 def structured_perm(draw):
-    mode = draw(st.sampled_from(["random", "member", "member", "monotone", "near"]))
+    mode = draw(st.sampled_from(["random", "member", "member", "monotone", "near", "long"]))
+    if mode == "long":
+        # longer basis elements (verdicts by avoidance of the published bases stay cheap):
+        # juxtapositions of two monotone runs and sums of 1 / 21 blocks of length 6-9, or random
+        n = draw(st.integers(6, 9))
+        kind = draw(st.sampled_from(["juxt", "l2", "random"]))
+        if kind == "random":
+            return list(draw(gen.perm_of(n)))
+        if kind == "l2":
+            out, i = [], 0
+            while i < n:
+                if i + 1 < n and draw(st.booleans()):
+                    out += [i + 1, i]
+                    i += 2
+                else:
+                    out.append(i)
+                    i += 1
+            p = tuple(out)
+        else:
+            k = draw(st.integers(1, n - 1))
+            left = sorted(draw(st.lists(st.integers(0, n - 1), min_size=k, max_size=k, unique=True)), reverse=draw(st.booleans()))
+            right = sorted(set(range(n)) - set(left), reverse=draw(st.booleans()))
+            p = tuple(left + right)
+        return list(ref.sym_perm(draw(st.sampled_from(ref.SYMS)), p))
     if mode == "random":
         return list(draw(gen.perms(1, 5)))
     if mode == "monotone":
